@@ -143,6 +143,15 @@ impl Family for Fam {
                 c.insert(a[1] as i64);
                 vec![c.contains(&(a[1] as i64)) as i128]
             }
+            19 => {
+                // round-trip check: [copy == original, image length]
+                let f = self.get(slot);
+                let bytes = f.serialize();
+                match BloomFilter::deserialize(&bytes) {
+                    Ok(g) => vec![(g == *f) as i128, bytes.len() as i128],
+                    Err(_) => vec![ERR],
+                }
+            }
             _ => vec![PANIC],
         }
     }
